@@ -6,12 +6,10 @@ require (
 	github.com/klauspost/compress v1.15.9
 	github.com/pierrec/lz4/v4 v4.1.15
 	github.com/segmentio/kafka-go v0.0.0
-	golang.org/x/tools v0.29.0
-)
-
-require (
-	golang.org/x/mod v0.22.0 // indirect
-	golang.org/x/sync v0.10.0 // indirect
+	github.com/xdg-go/pbkdf2 v1.0.0
+	github.com/xdg-go/scram v1.1.2
+	github.com/xdg-go/stringprep v1.0.4
+	golang.org/x/text v0.23.0
 )
 
 replace github.com/segmentio/kafka-go => /repo
